@@ -48,7 +48,7 @@ def run(tier, seed):
             if iid % 5 == 0:
                 layers.insert(rng.randrange(len(layers) + 1), zero)     # an all-zero layer must give an empty walk
             insts.append({"id": iid, "unodes": rec["unodes"], "uedges": rec["uedges"], "edges": rec["edges"], "layers": layers,
-                          "eps": 1 if iid % 3 == 0 else 0})
+                          "eps": 1 if iid % 3 == 0 else 0, "twice": iid % 4 == 1})
     src, dst = os.path.join(sc, "i.ndjson"), os.path.join(sc, "o.ndjson")
     vlib.write_ndjson(src, insts)
     vlib.run_harness("drive_euler.py", [src, dst])
